@@ -1,8 +1,13 @@
 ------------------------------ MODULE MUPTrace ------------------------------
 (* Trace validation for C19 (b): the store operations the real
-   MonitorUpdatingPersister issued on a recording, fault-injecting store, its reports, and the
-   outcome of the real recovery at every crash point x subset of landed lazy removals must be a
-   behaviour of MUPAbstract keeping its invariants. *)
+   MonitorUpdatingPersister issued on a recording, fault-injecting store -- called directly
+   (engine mode `mup`) or by a real ChainMonitor (mode `cm`: watch_channel / update_channel with
+   accepted and refused updates, block connections, deferred completion, archiving) --, its
+   reports, and the outcome of the real recovery at every crash point x subset of landed lazy
+   removals must be a behaviour of MUPAbstract keeping its invariants.
+   A report is: the persister returning Completed for a new monitor, an update, or a full
+   monitor write (the id is the monitor's latest update id); when the caller was told InProgress
+   the report is the later completion (`complete`, channel_monitor_updated). *)
 EXTENDS MUPAbstract, Json, IOUtils
 
 VARIABLE l
@@ -17,8 +22,8 @@ TraceInit == l = 1 /\ AInit
 
 IsEvent(e) == l <= Len(Rec) /\ Rec[l].ev = e /\ l' = l + 1
 
-TReset == IsEvent("reset") /\ mon' = -1 /\ upds' = <<>> /\ lazy' = {} /\ reported' = {}
-          /\ recs' = {} /\ unsafe' = FALSE
+TReset == IsEvent("reset") /\ mon' = -1 /\ monLazy' = FALSE /\ upds' = <<>> /\ lazy' = {}
+          /\ reported' = {} /\ recs' = {} /\ unsafe' = FALSE
 
 TCall == IsEvent("call") /\ UNCHANGED avars
 TQuery == IsEvent("sq") /\ UNCHANGED avars
@@ -28,7 +33,7 @@ TStoreOp ==
   /\ IsEvent("sop")
   /\ LET r == Rec[l] IN
      CASE r.class = "mon" /\ r.op = "write" -> AWriteMon(r.cid, r.applied)
-       [] r.class = "mon" /\ r.op = "remove" -> ARemoveMon(r.applied)
+       [] r.class = "mon" /\ r.op = "remove" -> ARemoveMon(r.lazy, r.applied)
        [] r.class = "upd" /\ r.op = "write" -> AWriteUpd(r.k, r.cid, r.applied)
        [] r.class = "upd" /\ r.op = "remove" -> ARemoveUpd(r.k, r.lazy, r.applied)
        [] OTHER -> AOther
@@ -36,13 +41,20 @@ TStoreOp ==
 TRet ==
   /\ IsEvent("ret")
   /\ LET r == Rec[l] IN
-     IF r.status = "completed" /\ r.kind \in {"new", "upd"} THEN AReport(r.id)
+     IF r.status = "completed" /\ r.kind \in {"new", "upd", "full"} THEN AReport(r.id)
      ELSE UNCHANGED avars
 
-TRec == IsEvent("rec") /\ LET r == Rec[l] IN ARec(ToSet(r.land), r.kind, r.rid, r.eq, r.rf)
-TCrash == IsEvent("crash") /\ ACrash(ToSet(Rec[l].land))
+(* channel_monitor_updated for a persistence that had been returned InProgress *)
+TComplete == IsEvent("complete") /\ AReport(Rec[l].id)
 
-TraceNext == TReset \/ TCall \/ TQuery \/ TRestart \/ TStoreOp \/ TRet \/ TRec \/ TCrash
+(* the caller asks for the channel to be archived *)
+TArchive == IsEvent("archive") /\ AArchive
+
+TRec == IsEvent("rec") /\ LET r == Rec[l] IN ARec(ToSet(r.land), r.landmon, r.kind, r.rid, r.eq, r.rf)
+TCrash == IsEvent("crash") /\ ACrash(ToSet(Rec[l].land), Rec[l].landmon)
+
+TraceNext == TReset \/ TCall \/ TQuery \/ TRestart \/ TStoreOp \/ TRet \/ TComplete \/ TArchive
+             \/ TRec \/ TCrash
 
 TraceSpec == TraceInit /\ [][TraceNext]_tvars
 
